@@ -74,6 +74,11 @@ def check(case):
     ok, b = owned(r, "generate", pl.build, samples, opts, "Root", extra)
     if not ok:
         return r
+    if extra and any(len({gen.fold(k) for k in m.type}) != len(m.type) for m in b.reg.models):
+        # models of different roots were merged and pooled fold-equal keys of unrelated objects: finding folded-equal-keys (K1),
+        # kept out of the generated domain like fold-equal keys of one object are (counted as skipped; the finding is replayed)
+        r.skip = "excluded:folded-equal-keys-in-one-merged-model"
+        return r
     st2 = case.get("second_stage")
     if st2:
         # the registry is used again after its names were generated: a further (flat) root model whose user-given name equals the
